@@ -41,7 +41,9 @@ static SDAI_Application_instance *verif_ObjCreate(const char *nm) { g_rounds++;
     { unsigned long room = __CPROVER_OBJECT_SIZE(nm) - __CPROVER_POINTER_OFFSET(nm); int term = 0; for (unsigned long i = 0; i < 3; i++) if (i < room && nm[i] == 0) term = 1;
       __CPROVER_assert(term, "C05 the keyword handed to the header registry is a terminated string inside its buffer"); }
     return nondet_int() ? g_obj : (nondet_int() ? (SDAI_Application_instance *)0 : ENTITY_NULL); }
-static Severity verif_inst_STEPread(SDAI_Application_instance *, int, int, InstMgr *, istream &in, const char *, bool, bool) { verif_consume_some(in); int s = nondet_int(); __CPROVER_assume(s >= SEVERITY_MAX && s <= SEVERITY_NULL); return (Severity)s; }
+/* same defaults as the real SDAI_Application_instance::STEPread( id, addFileId, instance_set, in, currSch, useTechCor = true, strict = true ) */
+static int g_hdr_reads; static bool g_hdr_strict, g_hdr_techcor; static InstMgr *g_hdr_set; static int g_hdr_add;
+static Severity verif_inst_STEPread(SDAI_Application_instance *, int, int add, InstMgr *set, istream &in, const char *, bool techcor = true, bool strict = true) { g_hdr_reads++; g_hdr_strict = strict; g_hdr_techcor = techcor; g_hdr_set = set; g_hdr_add = add; verif_consume_some(in); int s = nondet_int(); __CPROVER_assume(s >= SEVERITY_MAX && s <= SEVERITY_NULL); return (Severity)s; }
 static ErrorDescriptor &verif_obj_error(SDAI_Application_instance *) { return *g_obj_error; }
 static void verif_prepend(SDAI_Application_instance *, std::string &) {}
 static InstMgr *verif_new_mgr() { return (InstMgr *)malloc(8); }
@@ -75,7 +77,7 @@ void ErrorDescriptor::AppendToDetailMsg(const char *) {} void ErrorDescriptor::A
  * Every loop is unwound with unwinding assertions: a round that neither returns nor advances the stream fails them. */
 extern "C" void h_ReadHeader_terminates()
 {
-    IN_ARR(char, in_txt, 3); IN(unsigned, in_len); IN(int, in_state); IN(int, in_ftype);
+    IN_ARR(char, in_txt, 3); IN(unsigned, in_len); IN(int, in_state); IN(int, in_ftype); IN(int, in_strict);
     __CPROVER_assume(in_len <= 3);
     __CPROVER_assume(in_state >= 0 && in_state <= 7);
 #define HDR_ALPHA(c) ((c) == '/' || (c) == '*' || (c) == 'E' || (c) == ';' || (c) == '(' || (c) == '\'' || (c) == ' ' || (c) == '!' || (c) == '\\' || (c) == 'A' || (c) == 'x')
@@ -85,11 +87,12 @@ extern "C" void h_ReadHeader_terminates()
     STEPfile *f = (STEPfile *)malloc(sizeof(STEPfile));
     new (&f->_error) ErrorDescriptor();
     __CPROVER_assume(in_ftype == VERSION_CURRENT || in_ftype == VERSION_OLD || in_ftype == WORKING_SESSION);
-    f->_fileType = (FileTypeCode)in_ftype; f->_errorCount = 0; f->_strict = true;
+    f->_fileType = (FileTypeCode)in_ftype; f->_errorCount = 0; f->_strict = in_strict != 0; g_hdr_reads = 0;
     ErrorDescriptor oe; g_obj_error = &oe; g_obj = (SDAI_Application_instance *)malloc(sizeof(SDAI_Application_instance));
     g_rounds = 0;
     Severity sv = f->ReadHeader(in);
     __CPROVER_assert(sv >= SEVERITY_MAX && sv <= SEVERITY_NULL, "C05 the header reader returns an ordinary severity for every input and stream state");
+    if (g_hdr_reads) __CPROVER_assert(g_hdr_strict == (in_strict != 0) && g_hdr_techcor == true && g_hdr_set == 0 && g_hdr_add == 0, "C15 the header instances are read in the file's own mode (strict exactly when the file is strict), with no id offset and no instance set");
     __CPROVER_assert(g_rounds <= 4, "C05 the header reader tries at most one header instance per character of input (plus one)");
 }
 
